@@ -69,6 +69,9 @@ func genConcOp(t *sim.Tape) concOp {
 		f := gen.GenFont(t, 8)
 		format := sim.Pick(t, gen.FontFormats)
 		file, _ := gen.FontFile(f, format)
+		if format != type1.FormatPFB && t.Bool(2, 3) {
+			file = gen.Redate(t, file) // the other date layouts the reader accepts
+		}
 		return concOp{fmt.Sprintf("type1.Read(format %d)", format), func() string {
 			g, err := type1.Read(bytes.NewReader(file))
 			return dump.Err(err) + " " + dump.Font(g)
@@ -154,7 +157,7 @@ func probeBattery() string {
 	in := postscript.NewInterpreter()
 	in.MaxOps = psSafetyBudget
 	err := in.ExecuteString(`%!PS
-/a 1 2 add def /s (abc) def s 0 get a mul 3 sub abs
+/a 1 2 add def /s (abc) def s 0 get pop a 7 mul 3 sub abs
 [ 1 2 3 ] { 2 mul } forall 3 array dup 0 /x put
 << /k 1 >> begin k end 5 dict dup /q (v) put /q get
 true false and true or not 1 1 eq 1 2 ne
@@ -162,6 +165,17 @@ true false and true or not 1 1 eq 1 2 ne
 (x) length 2 string dup 0 65 put 1 index type
 StandardEncoding 65 get StandardEncoding length
 mark 1 2 cleartomark count 2 copy 3 1 roll exch dup pop
+matrix dup 0 get exch length matrix 3 get
+1183615869 internaldict length
+/PF << /FontType 1 >> definefont pop /PF findfont /FontType get FontDirectory length
+/PR 42 /ProcSet defineresource pop /PR /ProcSet findresource /CIDInit /ProcSet findresource length
+[ 1 2 3 4 ] 1 2 getinterval [ 9 9 9 9 ] dup 1 [ 7 8 ] putinterval
+/a where { pop } if /s load length userdict /a known 3 dict maxlength pop
+{ 1 2 add } bind exec { 3 } cvx exec [ 4 ] cvx exec (r) readonly (n) noaccess { } executeonly
+currentdict length currentfile pop userdict length systemdict length errordict length
+1 1 3 { } for 2 { 5 } repeat (ab) { } forall << /z 1 >> { pop pop } forall
+1 2 exch pop 3 index pop mark [ 1 ] ] length
+true { 1 } if false { 1 } { 2 } ifelse
 errordict /typecheck known 1 (a) add
 `)
 	sb.WriteString(dump.Err(err) + " " + dump.InterpNoDSC(in))
@@ -573,3 +587,6 @@ func keyOfDiff(a, b string) string {
 		return r
 	}, b[lo:min(len(b), i+8)])
 }
+
+// ProbeForTest exposes the probe battery to ad-hoc inspection.
+func ProbeForTest() string { return probeBattery() }
